@@ -575,6 +575,10 @@ FIXED_CAPTURE_SCENARIOS = [
     ("def hk(x, y): return x.jets.Select(lambda k: [j.pt + k.pt for j in x.els if j.pt < y.met])", "lambda j: hk(j, j)", "j"),
     ("def hk(x, y): return x.jets.Select(lambda k: x.els.Select(lambda j: x.jets.Where(lambda t: t.pt + j.pt + k.pt < y.met).Count()))",
      "lambda t: hk(t, t)", "t"),
+    # an argument that is a captured OBJECT (a module; cannot be deep-copied), used more than once inside the helper: every use
+    # gets its own nodes, the captured value stays the object it is (wave-10 review of repo fix 2fbea4b, repaired by d2957c4)
+    ("def hk(x, lib): return lib.gcd(x, 12) + lib.gcd(x, 8)", "lambda e: hk(e.run, math)", "e"),
+    ("def hk(x, lib): return lib.gcd(x, 12) + lib.lcm(x, 2)", "lambda e: e.nums.Select(lambda n: hk(n, math))", "e"),
 ]
 
 
